@@ -69,3 +69,9 @@ def bounded_report(pc, E):
             json.dump({'property': 'C19', 'obligation': 'C19.B/stats-report (bounded stand-in)',
                        'concretised_input': {'script': 'mw_case.py', 'case': case}, 'native_observation': out}, f, indent=1)
         pc.violations.append(('C19.B/stats-report', fn, True))
+
+
+def fallback(pc):
+    return [{'script': 'mw_case.py', 'case': {'mw': 'stats', 'requests': REQS}},
+            {'script': 'reservoir_case.py', 'case': {'ops': [['new', 2], ['add', 3], ['resize', 10], ['add', 40]]}},
+            {'script': 'reservoir_case.py', 'case': {'ops': [['new', 10], ['add', 3], ['resize', 5], ['add', 40]]}}]
